@@ -23,6 +23,7 @@ Event tuples (first field = kind, second = clock):
  exit      (k, t, cid, completed?)
  arrival   (k, t, node, class, scheduled date, created before, created after)
  arrive_try(k, t, nid, cid, node counter, node capacity(engine), total true pop, node true pop)
+ join      (k, t, nid, cid)   logged at entry of accept (the accept tuple is logged at its exit)
  record    (k, t, nid, cid, number of records of that customer after writing)
 """
 import math, functools, random
@@ -120,6 +121,7 @@ def instrument(Q, tr):
             idle = any((not s.busy) and (not s.offduty) for s in nd.servers) if real else None
             nwait = sum(1 for i in nd.all_individuals if not i.server) if real else None
             top = ctx[-1] if ctx else None
+            ev.append(('join', Q.current_time, nid, ind.id_number))
             r = orig(ind, *a, **k)
             ev.append(('accept', Q.current_time, nid, ind.id_number, ind.customer_class, ind.priority_class, pre_n,
                        ind.service_start_date is not False and ind.service_start_date == nd.now, idle, nwait, top))
